@@ -140,6 +140,11 @@ class IoSim(Engine):
                     while len((block + line).encode('utf-8')) <= max(target, 0):
                         block += line
                     doc = block + doc
+                if draw(st.integers(0, 11)) == 0:
+                    # a str source is YAML text, never a file name: the document is
+                    # the name of a file that exists on the mount (with other content)
+                    doc = '<MNT>/other.yaml' + draw(st.sampled_from(['', '', '\n']))
+                    root = draw(st.sampled_from(['str', 'any', root]))
                 return {'mode': 'load', 'spec': spec, 'root': root, 'order': order,
                         'doc': doc, 'knobs': knobs, 'chunks': chunks, 'corruptions': cs}
             else:
@@ -176,19 +181,26 @@ class IoSim(Engine):
         except Exception:
             stats.count('function_creation_failed')
             return []
+        mount = self.mount
         doc = plan['doc']
+        if '<MNT>' in doc:
+            doc = doc.replace('<MNT>', mount.dir)
+            mount.put('other.yaml', b'answer: 42\n')
+            stats.count('cases_document_names_an_existing_file')
         try:
             data = doc.encode('utf-8')
         except UnicodeEncodeError:
             stats.count('doc_not_encodable')
             return []
-        mount = self.mount
         knobs = mount.knobs
+        ref, _ = ops.call(lambda: fn(doc))
+        # (measured on the second call: the first one pays for cold caches in
+        # typing/inspect/re, which would make the enumeration size depend on what
+        # the process did before)
         rc = max(1, ops.call_cost(lambda: fn(doc)))
         if rc > self.max_calls:
             stats.count('cases_skipped_too_costly')
             return []
-        ref, _ = ops.call(lambda: fn(doc))
         refc = ops.comparable(ref)
         stats.count('cases_load')
         stats.count('ref_' + ref['status'])
@@ -210,7 +222,7 @@ class IoSim(Engine):
                             'load outcome differs between source kinds',
                             {'side': 'load', 'kind': kind, 'config': 'fault-free' if fault is None else 'eintr',
                              'diff': self.diff_class(ref, out)},
-                            {'doc': doc, 'schedule': schedule, 'boundary': bclass,
+                            {'doc': plan['doc'], 'schedule': schedule, 'boundary': bclass,
                              'str_outcome': self.brief(ref), 'outcome': self.brief(out),
                              'knobs': knobs}))
             else:
@@ -224,7 +236,7 @@ class IoSim(Engine):
                             violations.append(self.violation(
                                 'a load that met an I/O fault returned a value other than the str result',
                                 {'side': 'load', 'kind': kind, 'config': 'fault', 'fault': fault[0]},
-                                {'doc': doc, 'schedule': schedule, 'fault': fault,
+                                {'doc': plan['doc'], 'schedule': schedule, 'fault': fault,
                                  'str_outcome': self.brief(ref), 'outcome': self.brief(out)}))
                 else:
                     stats.count('faulted_load_raised')
@@ -339,16 +351,17 @@ class IoSim(Engine):
                 stats.count('fault_not_delivered')
         if len(data) > 4096:
             stats.count('docs_over_4096_bytes')
-        stats.sample({'mode': 'load', 'doc': doc[:200] + ('...' if len(doc) > 200 else ''),
+        stats.sample({'mode': 'load', 'doc': plan['doc'][:200] + ('...' if len(doc) > 200 else ''),
                       'doc_bytes': len(data), 'root': plan['root'], 'knobs': knobs,
                       'chunk_schedules': schedules, 'str_outcome': self.brief(ref)})
         return violations
 
-    @staticmethod
-    def brief(out):
+    def brief(self, out):
+        mdir = self.mount.dir
         if out['status'] == 'ok':
-            return ['ok', canon.short(out['value']), str(out['value'])[:200]]
-        return ['exc', out['exc'], out.get('text', '')[:200]]
+            shown = str(out['value']).replace(mdir, '<MNT>')
+            return ['ok', canon.short(shown), shown[:200]]
+        return ['exc', out['exc'], out.get('text', '').replace(mdir, '<MNT>')[:200]]
 
     @staticmethod
     def diff_class(ref, out):
@@ -383,6 +396,7 @@ class IoSim(Engine):
             options = [{'indent': i, 'ensure_ascii': a} for i in INDENTS for a in (True, False)]
         pre = {'short': b'x', 'longer': b'PREEXISTING ' * 2000, None: None}[plan['preexisting']]
         first = True
+        ops.call(lambda: fs(obj))       # warm caches before measuring the cost
         rc = max(1, ops.call_cost(lambda: fs(obj)))
         if rc > self.max_calls:
             stats.count('cases_skipped_too_costly')
